@@ -308,10 +308,11 @@ pub fn judge_subgroup_cover(ctx: &mut Ctx, base: &MSym, rng: &mut Rng, attempts:
     };
     for _ in 0..attempts {
         let nw = 1 + rng.below(3);
-        let long = rng.chance(1, 2);
+        let regime = rng.below(3);
         let words: Vec<Word> = (0..nw)
             .map(|_| {
-                let len = if long { 5 + rng.below(22) } else { 1 + rng.below(3) };
+                // short (1-3), medium (3-6) and long (5-26) generating words
+                let len = match regime { 0 => 1 + rng.below(3), 1 => 3 + rng.below(4), _ => 5 + rng.below(22) };
                 reduce(&(0..len).map(|_| { let g = rng.range(1, lg.ngens as i64); if rng.chance(1, 2) { g } else { -g } }).collect::<Word>())
             })
             .filter(|w| !w.is_empty())
@@ -451,6 +452,17 @@ pub fn run(cfg: &Cfg) -> Report {
         judge_subgroup_cover(ctx, &b, &mut rng, per);
     });
     report.absorb(ctx);
+    // volume: every spherical 2D symbol on a connected set with <= 4 chambers and v <= 5 (finite groups of order up
+    // to 120), many 1-3 generator subgroups each. Coincidence cascades in which the *second* of two merged rows
+    // survives (union by rank) need an earlier merge on that row: about 1 in 50,000 random subgroups.
+    let sph: Vec<MSym> = gen::symbols_2d(4, 5).into_iter().filter(|m| gen::is_spherical_2d(m) && (1..=m.n).any(|d| m.v[0][d] > 2 || m.v[1][d] > 2)).collect();
+    let per_base = (cfg.tier.pick(1_500_000, 20_000_000) / sph.len().max(1)).max(20);
+    let ctx = crate::monitor::par_range(cfg, sph.len() * 4, |ctx, k| {
+        let mut rng = Rng::stream(seed, 0x05_c000 + k as u64);
+        judge_subgroup_cover(ctx, &sph[k % sph.len()], &mut rng, per_base / 4);
+        ctx.count("spherical_bases_with_many_subgroup_covers");
+    });
+    report.absorb(ctx);
     // rotation groups (oriented bases) at high sheet bounds
     let rot: Vec<(&str, usize)> = vec![("<1.1:2 3:2,2,2,2:3,4,4>", cfg.tier.pick(8, 9)), ("<1.1:8:5 3 8 7,2 4 6 8,5 6 7 8:4,6 4>", 7), ("<1.1:2:2,1 2,1 2:2,5 5>", 8), ("<1.1:4:2 4,3 4,2 4:4,4>", cfg.tier.pick(7, 8))];
     let ctx = crate::monitor::par_range(cfg, rot.len(), |ctx, k| {
@@ -459,6 +471,19 @@ pub fn run(cfg: &Cfg) -> Report {
         if ori.is_valid_symbol() && ori.is_connected() {
             judge_covers(ctx, &ori, rot[k].1, 20_000_000);
             ctx.count("high_sheet_bound_cover_lists");
+        }
+    });
+    report.absorb(ctx);
+
+    // small finite groups at sheet bounds up to the order of the group, beyond 64 (dihedral and cyclic groups have
+    // few subgroup classes, so the whole list is cheap): tables with more rows than a machine word has bits
+    let wide: Vec<(String, usize)> = [33usize, 35, 40, 64, 65, 70].iter().flat_map(|&n| vec![(format!("<1.1:2:2,2,2:2,{}>", n), 2 * n), (format!("<1.1:1:1,1,1:2,{}>", n), 4 * n.min(40))]).collect();
+    let ctx = crate::monitor::par_range(cfg, wide.len(), |ctx, k| {
+        if let Some(b) = msym_from_text(&wide[k].0) {
+            if b.is_valid_symbol() && b.is_connected() {
+                judge_covers(ctx, &b, wide[k].1, 50_000_000);
+                ctx.count("cover_lists_with_a_sheet_bound_beyond_64");
+            }
         }
     });
     report.absorb(ctx);
